@@ -408,6 +408,12 @@ class Backend:
                 m = f"m{self.marker_n}"
                 self.pages[m] = ([], marker)
                 marker = m
+        elif mode == 6:
+            # everything in the payload, plus a marker that leads to an empty last page
+            first = rows
+            self.marker_n += 1
+            marker = f"m{self.marker_n}"
+            self.pages[marker] = ([], None)
         elif mode >= 10:
             first, marker = self._paginate(rows, mode - 10, 1000)
         else:
